@@ -4,22 +4,87 @@
    Sub-language: Model/SubLangX86.v (valid_instr, valid_layout, ...). *)
 From Coq Require Import String Ascii List Bool NArith ZArith.
 From OV Require Import Model.ParseX86 Model.ParseFileX86 Model.SubLangX86
-                       Proofs.ParseX86Line Proofs.ParseFileX86.
+                       Proofs.ParseX86Op Proofs.ParseX86Line Proofs.ParseFileX86.
 Import ListNotations.
 Open Scope string_scope.
 
 (* ------------------------------------------------------------------------------------------------
    Round trip: for ALL instruction ASTs of the sub-language (a letter-initial alphanumeric mnemonic,
    0-4 operands: any %alphanumeric register, any integer immediate, $label / label, memory
-   disp(base,index,scale) in the 7 writable presence combinations, scales 1 2 4 8) and ALL layouts
-   (any blanks before the mnemonic, around commas, inside the parentheses, before the end; hexadecimal
+   disp(base,index,scale) in the 7 writable presence combinations, scales 1 2 4 8, and segment-override
+   references %seg:disp(base,index,scale) -- displacement absent, a number as written (decimal, hexadecimal,
+   negative, leading zeros), or identifier[@relocation[+-offset]]; all base/index/scale shapes incl. none)
+   and ALL layouts (any blanks before the mnemonic, around commas, inside the parentheses, around the ":" of a
+   segment override, before "@" and around the "+" of a relocation offset, before the end; hexadecimal
    (either case) or decimal spelling of every integer; scale 1 written or omitted; optional trailing
-   "#"/"//" comment of printable text), the parser returns exactly the AST. *)
+   "#"/"//" comment of printable text), the parser returns exactly the AST: the same number of operands,
+   each of the written kind with the written parts. *)
 Theorem parse_render_instr : forall lay a,
   valid_instr a = true -> valid_layout lay = true ->
   parse_line (render_line lay a) = Parsed (PInstr (fst a) (snd a)).
 Proof. exact roundtrip_proof. Qed.
 Print Assumptions parse_render_instr.
+
+(* ------------------------------------------------------------------------------------------------
+   The WRITTEN language is larger than what the code keeps.  valid_instr_w adds: opmasks %zmm3{%k1}{z} and
+   disp(base,index,scale){%k1}; identifier@RELOCATION[+-offset] as operand, as $immediate and as displacement;
+   numeric labels 1b / 2f (first operand); in every layout (blanks around every brace, "%" of the mask written or
+   not, "*" in front of a parenthesised memory reference, data16 / data32 prefixes in front of the mnemonic).
+   For ALL such lines the parser returns the mnemonic and, for every operand, its code_view: everything the
+   property names (the operand count and kinds, register names, displacement / base / index / scale, the
+   identifier's name, the numeric label's number) and not the mask, the relocation, the offset after it, the b/f
+   direction -- parser_x86att.py drops those (process_register, process_identifier, process_memory_address).
+   valid_instr = valid_instr_w + `lossless`: there code_view is the identity and the statement above follows. *)
+Theorem parse_render_instr_written : forall lay a,
+  valid_instr_w a = true -> valid_layout lay = true ->
+  parse_line (render_line lay a) = Parsed (PInstr (fst a) (map code_view (snd a))).
+Proof. exact roundtrip_view_proof. Qed.
+Print Assumptions parse_render_instr_written.
+
+(* what code_view keeps: the register name, the whole address, the identifier name, the label number;
+   its results are lossless (a normal form), and on lossless operands it is the identity *)
+Theorem code_view_keeps :
+  (forall n k z, code_view (ORegK n k z) = OReg n)
+  /\ (forall d b i sc k, code_view (OMemK d b i sc k) = OMem (disp_view d) b i sc)
+  /\ (forall n rel off b i sc, code_view (OMem (DIdR n rel off) b i sc) = OMem (DId n) b i sc)
+  /\ (forall n rel off, code_view (OIdR n rel off) = OId n)
+  /\ (forall d x, code_view (ONumLbl d x) = OId d)
+  /\ (forall o, lossless (code_view o) = true)
+  /\ (forall o, lossless o = true -> code_view o = o)
+  /\ (forall ops, length (map code_view ops) = length ops).
+Proof.
+  repeat split; try reflexivity.
+  - intro o. destruct o as [| | |d ? ? ?| | | |d ? ? ? ?| |]; try reflexivity; destruct d; reflexivity.
+  - exact lossless_view.
+  - intro. apply map_length.
+Qed.
+Print Assumptions code_view_keeps.
+
+(* the full as-written statement is FALSE for the written language: the mask, the relocation and the direction of a
+   numeric label are not recovered (machine-checked witnesses; recorded as observations by checks/c09.py) *)
+Theorem parse_render_instr_written_full_refuted :
+  (exists lay a, valid_instr_w a = true /\ valid_layout lay = true
+                 /\ render_line lay a = "vaddpd %zmm1,%zmm2,%zmm3{%k1}{z}"
+                 /\ parse_line (render_line lay a) <> Parsed (PInstr (fst a) (snd a)))
+  /\ (exists lay a, valid_instr_w a = true /\ valid_layout lay = true
+                 /\ render_line lay a = "call foo@PLT"
+                 /\ parse_line (render_line lay a) <> Parsed (PInstr (fst a) (snd a)))
+  /\ (exists lay a, valid_instr_w a = true /\ valid_layout lay = true
+                 /\ render_line lay a = "mov foo@GOTPCREL+8(%rip),%rax"
+                 /\ parse_line (render_line lay a) <> Parsed (PInstr (fst a) (snd a)))
+  /\ (exists lay1 lay2 a1 a2, valid_instr_w a1 = true /\ valid_instr_w a2 = true /\ valid_layout lay1 = true /\ valid_layout lay2 = true
+                 /\ render_line lay1 a1 = "jmp 1b" /\ render_line lay2 a2 = "jmp 1f"
+                 /\ parse_line (render_line lay1 a1) = parse_line (render_line lay2 a2)).
+Proof.
+  pose (lk := mkOplay false false false false "" "" "" "" "" "" "" "" "" "" "" "" (mkKlay false "" true "" "" "" "" "" "" "")).
+  pose (l0 := mkLayout "" " " [(lk, "", ""); (lk, "", ""); (lk, "", "")] "" None []).
+  repeat split.
+  - exists l0, ("vaddpd", [OReg "zmm1"; OReg "zmm2"; ORegK "zmm3" "k1" true]). vm_compute. repeat split; discriminate.
+  - exists l0, ("call", [OIdR "foo" "PLT" None]). vm_compute. repeat split; discriminate.
+  - exists l0, ("mov", [OMem (DIdR "foo" "GOTPCREL" (Some "8")) (Some "rip") None 1; OReg "rax"]). vm_compute. repeat split; discriminate.
+  - exists l0, l0, ("jmp", [ONumLbl "1" "b"%char]), ("jmp", [ONumLbl "1" "f"%char]). vm_compute. repeat split; reflexivity.
+Qed.
+Print Assumptions parse_render_instr_written_full_refuted.
 
 (* "regardless of surrounding whitespace, tabs, separators' spacing, hex or decimal, trailing comment" *)
 Corollary layout_irrelevant : forall lay1 lay2 a,
@@ -27,6 +92,27 @@ Corollary layout_irrelevant : forall lay1 lay2 a,
   parse_line (render_line lay1 a) = parse_line (render_line lay2 a).
 Proof. intros. rewrite !parse_render_instr by assumption. reflexivity. Qed.
 Print Assumptions layout_irrelevant.
+
+(* the displacement of a segment-override reference is kept as text (the implementation does not convert it);
+   every spelling of every integer is such a text, and it denotes that integer *)
+Theorem segment_displacement_spelling : forall lo z,
+  valid_numtxt (S_ (render_Z lo z)) = true /\ parse_number (render_Z lo z) = Some (NumOk z, []).
+Proof. intros. split; [apply render_Z_numtxt|apply render_Z_value]. Qed.
+Print Assumptions segment_displacement_spelling.
+
+(* a segment-override reference is ONE operand, whatever its displacement and address part:
+   the instance of the round trip for  m  o1, %seg:disp(base,index,scale), o3 *)
+Corollary segment_reference_is_one_operand : forall lay m pre sg d b i sc post,
+  valid_instr (m, (pre ++ OSeg sg d b i sc :: post)%list) = true -> valid_layout lay = true ->
+  exists ops, parse_line (render_line lay (m, (pre ++ OSeg sg d b i sc :: post)%list)) = Parsed (PInstr m ops)
+              /\ length ops = length pre + 1 + length post /\ nth (length pre) ops (OId "") = OSeg sg d b i sc.
+Proof.
+  intros. eexists. split; [apply (parse_render_instr lay (m, (pre ++ OSeg sg d b i sc :: post)%list)); assumption|].
+  simpl snd. split.
+  - rewrite app_length. simpl. rewrite <- PeanoNat.Nat.add_assoc. reflexivity.
+  - rewrite app_nth2 by apply le_n. rewrite PeanoNat.Nat.sub_diag. reflexivity.
+Qed.
+Print Assumptions segment_reference_is_one_operand.
 
 (* ------------------------------------------------------------------------------------------------ other kinds *)
 Theorem classify_comment_line : forall lead slashes text,
@@ -104,10 +190,13 @@ Print Assumptions parse_file_count.
 (* ------------------------------------------------------------------------------------------------ non-vacuity *)
 Definition tab : string := String (ascii_of_nat 9) "".
 Definition lo0 := default_oplay.
-Definition lo_hexU := mkOplay true true false false "" " " tab "" " " tab "".
-Definition lo_omit := mkOplay false false true true "" "" "" " " "" "" "".
-Definition lay0 := mkLayout "" " " [] "" None.
-Definition lay1 := mkLayout tab tab [(lo_hexU, " ", ""); (lo_omit, "", tab); (lo0, tab, " ")] " " (Some (false, " LLVM-MCA x: $1,(%rax)")).
+Definition kl_sp := mkKlay false " " true " " tab " " tab " " tab " ".
+Definition lo_hexU := mkOplay true true false false "" " " tab "" " " tab "" " " tab " " tab " " kl_sp.
+Definition lo_omit := mkOplay false false true true "" "" "" " " "" "" "" "" "" "" "" "" default_klay.
+Definition lo_star := mkOplay false false true false "" "" "" "" "" "" "" "" "" "" "" "" (mkKlay true " " false "" "" "" "" "" "" "").
+Definition lay0 := mkLayout "" " " [] "" None [].
+Definition lay1 := mkLayout tab tab [(lo_hexU, " ", ""); (lo_omit, "", tab); (lo0, tab, " ")] " " (Some (false, " LLVM-MCA x: $1,(%rax)")) [].
+Definition lay_pre := mkLayout tab " " [(lo_star, "", ""); (lo_star, "", "")] "" None [(false, " "); (true, tab)].
 
 (* one rendered line per operand kind; the layouts and ASTs satisfy the hypotheses *)
 Example ex_reg : render_line lay0 ("mov", [OReg "rax"; OReg "xmm31"]) = "mov %rax,%xmm31"
@@ -141,13 +230,60 @@ Example ex_mem_render :
 Proof. vm_compute. reflexivity. Qed.
 (* scale 1 omitted, decimal *)
 Example ex_scale_default :
-  render_line (mkLayout "" " " [(lo_omit, "", "")] "" None) ("lea", [OMem (DInt 8) (Some "rax") (Some "rbx") 1]) = "lea 8(%rax, %rbx)"
+  render_line (mkLayout "" " " [(lo_omit, "", "")] "" None []) ("lea", [OMem (DInt 8) (Some "rax") (Some "rbx") 1]) = "lea 8(%rax, %rbx)"
   /\ parse_line "lea 8(%rax, %rbx)" = Parsed (PInstr "lea" [OMem (DInt 8) (Some "rax") (Some "rbx") 1])
   /\ parse_line "lea 0x8(%rax,%rbx,1)" = parse_line "lea 8(%rax, %rbx)".
 Proof. vm_compute. auto. Qed.
+(* segment-override references: every displacement form, every address shape; lay1 puts blanks around ":" "@" "+" *)
+Definition segs : list operand :=
+  [ OSeg "fs" (SNum "0x28") None None 1; OSeg "fs" (SNum "40") None None 1; OSeg "fs" (SNum "-8") (Some "rax") None 1;
+    OSeg "fs" (SNum "8") (Some "rax") None 1; OSeg "gs" (SNum "0x10") (Some "rdi") (Some "rsi") 4;
+    OSeg "gs" SNone (Some "rdi") (Some "rsi") 4; OSeg "gs" SNone None (Some "rsi") 1; OSeg "es" (SNum "010") None (Some "r9") 2;
+    OSeg "fs" (SId "var" None None) None None 1; OSeg "fs" (SId "var" (Some "TPOFF") None) (Some "rcx") None 1;
+    OSeg "fs" (SId "var" (Some "TPOFF") (Some "-8")) (Some "rcx") None 1; OSeg "fs" (SId "v.1+4" (Some "NTPOFF") (Some "16")) None None 1 ].
+Example ex_seg_valid : forallb valid_operand segs = true.
+Proof. vm_compute. reflexivity. Qed.
+Example ex_seg_render :
+  map (fun o => render_line lay0 ("mov", [o; OReg "rbx"])) segs =
+  map (fun s => "mov " ++ s ++ ",%rbx")
+      [ "%fs:0x28"; "%fs:40"; "%fs:-8(%rax)"; "%fs:8(%rax)"; "%gs:0x10(%rdi,%rsi,4)"; "%gs:(%rdi,%rsi,4)"; "%gs:(,%rsi,1)";
+        "%es:010(,%r9,2)"; "%fs:var"; "%fs:var@TPOFF(%rcx)"; "%fs:var@TPOFF-8(%rcx)"; "%fs:v.1+4@NTPOFF+16" ]
+  /\ render_line lay1 ("movq", [OSeg "fs" (SId "var" (Some "TPOFF") (Some "8")) (Some "rcx") None 1; OReg "rbx"])
+     = tab ++ "movq" ++ tab ++ "%fs :" ++ tab ++ "var @TPOFF" ++ tab ++ "+ 8( %rcx" ++ tab ++ ") ," ++ tab ++ "%rbx # LLVM-MCA x: $1,(%rax)".
+Proof. vm_compute. auto. Qed.
+Example ex_seg_parsed :
+  parse_line "movq %fs:8(%rax), %rbx" = Parsed (PInstr "movq" [OSeg "fs" (SNum "8") (Some "rax") None 1; OReg "rbx"])
+  /\ parse_line "movq %fs : 8 (%rax), %rbx" = parse_line "movq %fs:8(%rax), %rbx"
+  /\ parse_line "movl %ebx,%fs:16( %rax )" = Parsed (PInstr "movl" [OReg "ebx"; OSeg "fs" (SNum "16") (Some "rax") None 1])
+  /\ parse_line "mov %fs:0x28, %rax" = Parsed (PInstr "mov" [OSeg "fs" (SNum "0x28") None None 1; OReg "rax"])
+  /\ parse_line "mov %fs:8(%rax,%rbx,3), %rcx" = Reject.
+Proof. vm_compute. auto 6. Qed.
 (* every general-purpose register width and xmm/ymm/zmm 0-31 is a register of the sub-language *)
 Example ex_registers : forallb valid_reg ["rax"; "eax"; "ax"; "al"; "ah"; "rbx"; "ebx"; "bx"; "bl"; "bh"; "rcx"; "ecx"; "cx"; "cl"; "ch"; "rdx"; "edx"; "dx"; "dl"; "dh"; "rbp"; "ebp"; "bp"; "bpl"; "rsp"; "esp"; "sp"; "spl"; "rsi"; "esi"; "si"; "sil"; "rdi"; "edi"; "di"; "dil"; "r8"; "r8d"; "r8w"; "r8b"; "r9"; "r9d"; "r9w"; "r9b"; "r10"; "r10d"; "r10w"; "r10b"; "r11"; "r11d"; "r11w"; "r11b"; "r12"; "r12d"; "r12w"; "r12b"; "r13"; "r13d"; "r13w"; "r13b"; "r14"; "r14d"; "r14w"; "r14b"; "r15"; "r15d"; "r15w"; "r15b"; "rip"; "eip"; "xmm0"; "xmm1"; "xmm2"; "xmm3"; "xmm4"; "xmm5"; "xmm6"; "xmm7"; "xmm8"; "xmm9"; "xmm10"; "xmm11"; "xmm12"; "xmm13"; "xmm14"; "xmm15"; "xmm16"; "xmm17"; "xmm18"; "xmm19"; "xmm20"; "xmm21"; "xmm22"; "xmm23"; "xmm24"; "xmm25"; "xmm26"; "xmm27"; "xmm28"; "xmm29"; "xmm30"; "xmm31"; "ymm0"; "ymm1"; "ymm2"; "ymm3"; "ymm4"; "ymm5"; "ymm6"; "ymm7"; "ymm8"; "ymm9"; "ymm10"; "ymm11"; "ymm12"; "ymm13"; "ymm14"; "ymm15"; "ymm16"; "ymm17"; "ymm18"; "ymm19"; "ymm20"; "ymm21"; "ymm22"; "ymm23"; "ymm24"; "ymm25"; "ymm26"; "ymm27"; "ymm28"; "ymm29"; "ymm30"; "ymm31"; "zmm0"; "zmm1"; "zmm2"; "zmm3"; "zmm4"; "zmm5"; "zmm6"; "zmm7"; "zmm8"; "zmm9"; "zmm10"; "zmm11"; "zmm12"; "zmm13"; "zmm14"; "zmm15"; "zmm16"; "zmm17"; "zmm18"; "zmm19"; "zmm20"; "zmm21"; "zmm22"; "zmm23"; "zmm24"; "zmm25"; "zmm26"; "zmm27"; "zmm28"; "zmm29"; "zmm30"; "zmm31"; "RAX"; "EAX"; "AX"; "AL"; "AH"; "RBX"; "EBX"; "BX"] = true.
 Proof. vm_compute. reflexivity. Qed.
+(* the written language: opmasks, relocations, numeric labels, indirect operands, data prefixes *)
+Definition written : list instr :=
+  [ ("vaddpd", [OReg "zmm1"; OReg "zmm2"; ORegK "zmm3" "k1" true]); ("vmovupd", [OReg "zmm1"; OMemK (DInt 8) (Some "rax") (Some "rbx") 2 "k1"]);
+    ("call", [OIdR "foo" "PLT" None]); ("mov", [OIdR "foo" "GOT" (Some "-4"); OReg "rax"]);
+    ("mov", [OMem (DIdR "foo" "GOTPCREL" (Some "8")) (Some "rip") None 1; OReg "rax"]); ("jmp", [ONumLbl "1" "b"%char]);
+    ("jmp", [OStar (StReg "rax")]); ("jmp", [OStar (StDisp (SNum "010"))]); ("call", [OStar (StDisp (SId "foo" (Some "GOTPCREL") None))]);
+    ("jmp", [OMem (DInt 8) (Some "rax") None 1]) ].
+Example ex_written_valid : forallb valid_instr_w written = true /\ map valid_instr written = [false; false; false; false; false; false; true; true; true; true].
+Proof. vm_compute. auto. Qed.
+Example ex_written_render :
+  map (render_line lay0) written =
+  [ "vaddpd %zmm1,%zmm2,%zmm3{k1}{z}"; "vmovupd %zmm1,8(%rax,%rbx,2){k1}"; "call foo@PLT"; "mov foo@GOT-4,%rax";
+    "mov foo@GOTPCREL+8(%rip),%rax"; "jmp 1b"; "jmp *%rax"; "jmp *010"; "call *foo@GOTPCREL"; "jmp 8(%rax)" ]
+  /\ render_line lay1 ("vaddpd", [ORegK "zmm3" "k1" true]) = tab ++ "vaddpd" ++ tab ++ "%zmm3 {" ++ tab ++ "% k1" ++ tab ++ "} {" ++ tab ++ "z }  # LLVM-MCA x: $1,(%rax)"
+  /\ render_line lay_pre ("mov", [OMem (DInt 8) (Some "rax") None 1; OReg "bx"]) = tab ++ "data16 data32" ++ tab ++ "mov * 8(%rax),%bx".
+Proof. vm_compute. auto. Qed.
+Example ex_written_parsed :
+  map (fun a => parse_line (render_line lay0 a)) written = map (fun a => Parsed (PInstr (fst a) (map code_view (snd a)))) written
+  /\ parse_line "vaddpd %zmm1, %zmm2, %zmm3{%k1}{z}" = Parsed (PInstr "vaddpd" [OReg "zmm1"; OReg "zmm2"; OReg "zmm3"])
+  /\ parse_line "jmp *%rax" = Parsed (PInstr "jmp" [OStar (StReg "rax")])
+  /\ parse_line "data16 nop" = Parsed (PInstr "nop" [])
+  /\ parse_line (tab ++ ".ascii ""a, b # c""") = Parsed (PDirective "ascii") /\ valid_dirrest " ""a, b # c""" = true.
+Proof. vm_compute. auto 7. Qed.
 Example ex_four_operands : valid_instr ("vfoo", [OReg "xmm1"; OImm 3; OMem DNone (Some "rax") None 1; OReg "k1"]) = true.
 Proof. vm_compute. reflexivity. Qed.
 (* other kinds, and a file *)
@@ -164,9 +300,10 @@ Example ex_file :
 Proof. vm_compute. reflexivity. Qed.
 (* outside the sub-language the model does not guess *)
 Example ex_unmodelled :
-  parse_line "mov %fs:8, %rax" = Unmodelled /\ parse_line "jmp *%rax" = Unmodelled
-  /\ parse_line "vaddpd %zmm1, %zmm2, %zmm3{%k1}" = Unmodelled /\ parse_line "call foo@PLT" = Unmodelled.
-Proof. vm_compute. auto. Qed.
+  parse_line "mov %fs:, %rax" = Unmodelled /\ parse_line "mov %fs{%k1}:8, %rax" = Unmodelled /\ parse_line "fadd %st(1)" = Unmodelled
+  /\ parse_line "lea 8+foo(%rip), %rax" = Unmodelled /\ parse_line "call a::b" = Unmodelled /\ parse_line "mov (%rax{%k1}), %rbx" = Unmodelled
+  /\ parse_line "jmp *%fs:8" = Unmodelled.
+Proof. vm_compute. auto 8. Qed.
 (* what the grammar refuses (ValueError) *)
 Example ex_reject :
   parse_line "mov (%rax,%rbx,3), %rcx" = Reject /\ parse_line "vfoo %a, %b, %c, %d, %e" = Reject
